@@ -88,7 +88,7 @@ type filterAnalyzer struct {
 	tainted map[types.Object]bool
 	local   map[types.Object]bool
 	fresh   map[types.Object]bool // locals initialised from literals/constructors (owned by the iteration)
-	ranged  ast.Expr // the collection
+	ranged  ast.Expr              // the collection
 	keyObj  types.Object
 }
 
